@@ -3,6 +3,7 @@
 # Applies a one-line mutation to /repo, runs the property's quick check, restores the file.
 prop=$1; f=$2; expr=$3
 cd /repo || exit 2
+if [ -n "$(git -C /repo status --porcelain)" ]; then echo "REFUSING: /repo has uncommitted changes"; exit 9; fi
 cp "$f" /tmp/mutant_backup.$$ 
 sed -i "$expr" "$f"
 if cmp -s "$f" /tmp/mutant_backup.$$; then echo "MUTANT-NOT-APPLIED $expr"; rm /tmp/mutant_backup.$$; exit 3; fi
